@@ -11,6 +11,7 @@ mod c07;
 mod c08;
 mod c10;
 mod c16;
+mod c19;
 mod fdgen;
 mod search;
 mod prog;
@@ -50,6 +51,7 @@ fn main() {
                 "C08" => c08::run(seed, thorough, &mut out),
                 "C10" => c10::run(seed, thorough, &mut out),
                 "C16" => c16::run(seed, thorough, 16, &mut out),
+                "C19" => c19::run(seed, thorough, &mut out),
                 "C17" => c16::run(seed, thorough, 17, &mut out),
                 _ => {
                     eprintln!("unknown property {}", prop);
@@ -79,6 +81,7 @@ fn main() {
                     "C08" => c08::replay(line, &mut out),
                     "C10" => c10::replay(line, &mut out),
                     "C16" => c16::replay(line, 16, &mut out),
+                    "C19" => c19::replay(line, &mut out),
                     "C17" => c16::replay(line, 17, &mut out),
                     _ => {
                         eprintln!("unknown property {}", prop);
